@@ -3,7 +3,7 @@
    that call or by any later one, results of earlier calls included; (3) estimator classes: fit_transform changes only
    the receiver, whatever decomposition body is plugged in; (4) the interruption points enumerated by the
    correspondence are all there are; (5) flagging more parameters as in-place never rejects an accepted program. *)
-From Coq Require Import List Arith ZArith Bool Lia FunctionalExtensionality.
+From Coq Require Import List Arith ZArith Bool Lia.
 From TLV Require Import Model.Effects Proofs.EffectsProofs Proofs.EffectsProofsSk Proofs.EffectsProofsGen Corr.C15.
 Import ListNotations.
 
@@ -102,26 +102,74 @@ Lemma frame_sequence_nonvacuous :
 Proof. split; [repeat constructor|]. vm_compute. repeat split; lia. Qed.
 
 (* ------------------------------------------------------------------ (3) estimator classes *)
-Lemma aexec_env_ext : forall c e1 e2 ah, (forall x, e1 x = e2 x) -> aexec c (e1, ah) = aexec c (e2, ah).
-Proof. intros c e1 e2 ah H. assert (e1 = e2) by (apply functional_extensionality; exact H). subst. reflexivity. Qed.
+(* aexec depends on the environment only pointwise (no functional extensionality needed) *)
+Definition same_result (r1 r2 : option astate) : Prop :=
+  match r1, r2 with
+  | Some (e1, a1), Some (e2, a2) => a1 = a2 /\ forall x, e1 x = e2 x
+  | None, None => True
+  | _, _ => False
+  end.
+Lemma upd_ext {A} (e1 e2 : nat -> A) x v : (forall y, e1 y = e2 y) -> forall y, upd e1 x v y = upd e2 x v y.
+Proof. intros H y. unfold upd. destruct (Nat.eqb y x); auto. Qed.
+Lemma aexec_ext : forall c e1 e2 ah, (forall x, e1 x = e2 x) -> same_result (aexec c (e1, ah)) (aexec c (e2, ah)).
+Proof.
+  induction c; intros e1 e2 ah H; simpl.
+  - (* Skip *) split; auto.
+  - (* Seq *) specialize (IHc1 e1 e2 ah H). unfold same_result in IHc1.
+    destruct (aexec c1 (e1, ah)) as [[e1' a1]|]; destruct (aexec c1 (e2, ah)) as [[e2' a2]|]; try contradiction; simpl; auto.
+    destruct IHc1 as [-> H']. apply IHc2; auto.
+  - (* Repeat *) revert e1 e2 ah H. induction n; intros e1 e2 ah H; simpl; [split; auto|].
+    specialize (IHc e1 e2 ah H). unfold same_result in IHc.
+    destruct (aexec c (e1, ah)) as [[e1' a1]|]; destruct (aexec c (e2, ah)) as [[e2' a2]|]; try contradiction; simpl; auto.
+    destruct IHc as [-> H']. apply IHn; auto.
+  - (* Alloc *) split; auto. apply upd_ext; auto.
+  - (* Copy *) split; auto. apply upd_ext; auto.
+  - (* View *) rewrite (H y). split; auto. apply upd_ext; auto.
+  - (* WriteInto *) rewrite (H x). destruct (can_write (e2 x)); simpl; auto.
+  - (* InplaceOp *) rewrite (H x). destruct (can_write (e2 x)); simpl; auto.
+  - (* ListNew *) rewrite (map_ext e1 e2 H). split; auto. apply upd_ext; auto.
+  - (* ListCopy *) rewrite (H y). split; auto. apply upd_ext; auto.
+  - (* ListGet *) rewrite (H y). split; auto. apply upd_ext; auto.
+  - (* ListSet *) rewrite (H y), (H x). destruct (awr_cell _ _ _ _); simpl; auto.
+  - (* ListRemove *) rewrite (H y). destruct (awr_cell _ _ _ _); simpl; auto.
+  - (* ListPop *) rewrite (H y). destruct (awr_cell _ _ _ _); simpl; auto.
+  - (* ListAppend *) rewrite (H y), (H x). destruct (awr_cell _ _ _ _); simpl; auto.
+  - (* Rebind *) rewrite (H y). split; auto. apply upd_ext; auto.
+  - (* Call *)
+    assert (Hc : forall i, call_env ANull e1 args i = call_env ANull e2 args i).
+    { intros i. unfold call_env. destruct (nth_error args i); auto. }
+    specialize (IHc _ _ ah Hc). unfold same_result in IHc. unfold var in *.
+    destruct (aexec c (call_env ANull e1 args, ah)) as [[e1' a1]|]; destruct (aexec c (call_env ANull e2 args, ah)) as [[e2' a2]|];
+      try contradiction; simpl; auto.
+    destruct IHc as [-> H']. split; auto. rewrite (H' ret). apply upd_ext; auto.
+Qed.
+Lemma aexec_ext_some c e1 e2 ah : (forall x, e1 x = e2 x) -> aexec c (e2, ah) <> None -> aexec c (e1, ah) <> None.
+Proof.
+  intros H Hs. pose proof (aexec_ext c e1 e2 ah H) as E. unfold same_result in E.
+  destruct (aexec c (e1, ah)) as [[? ?]|]; [discriminate|]. destruct (aexec c (e2, ah)) as [[? ?]|]; [contradiction|congruence].
+Qed.
 
 Lemma estimator_pre_safe2 body ret : safe 3 body = true -> safe 2 (seq (estimator_fit_pre 2 body ret)) = true.
 Proof.
   unfold safe, safe_with. intros H. cbn [estimator_fit_pre List.seq map app seq Nat.add].
   cbn [aexec]. cbn [aread_cell aenv0 repeat map arg_aref nth upd].
   match goal with |- context [aexec body ?s] =>
-    replace (aexec body s) with (aexec body (aenv0 (repeat false 3), [])) end.
-  - destruct (aexec body (aenv0 (repeat false 3), [])) as [[e' ah']|]; [reflexivity|discriminate].
-  - apply aexec_env_ext. intros x. symmetry. do 4 (destruct x as [|x]; [reflexivity|]). unfold call_env, aenv0. simpl. destruct x; reflexivity.
+    assert (Hx : same_result (aexec body s) (aexec body (aenv0 (repeat false 3), []))) end.
+  { apply aexec_ext. intros x. do 4 (destruct x as [|x]; [reflexivity|]). unfold call_env, aenv0. simpl. destruct x; reflexivity. }
+  unfold same_result in Hx.
+  destruct (aexec body (aenv0 (repeat false 3), [])) as [[e2 a2]|]; [|discriminate].
+  match goal with |- context [aexec body ?s] => destruct (aexec body s) as [[e1 a1]|] end; [reflexivity|contradiction].
 Qed.
 Lemma estimator_pre_safe3 body ret : safe 4 body = true -> safe 2 (seq (estimator_fit_pre 3 body ret)) = true.
 Proof.
   unfold safe, safe_with. intros H. cbn [estimator_fit_pre List.seq map app seq Nat.add].
   cbn [aexec]. cbn [aread_cell aenv0 repeat map arg_aref nth upd].
   match goal with |- context [aexec body ?s] =>
-    replace (aexec body s) with (aexec body (aenv0 (repeat false 4), [])) end.
-  - destruct (aexec body (aenv0 (repeat false 4), [])) as [[e' ah']|]; [reflexivity|discriminate].
-  - apply aexec_env_ext. intros x. symmetry. do 5 (destruct x as [|x]; [reflexivity|]). unfold call_env, aenv0. simpl. destruct x; reflexivity.
+    assert (Hx : same_result (aexec body s) (aexec body (aenv0 (repeat false 4), []))) end.
+  { apply aexec_ext. intros x. do 5 (destruct x as [|x]; [reflexivity|]). unfold call_env, aenv0. simpl. destruct x; reflexivity. }
+  unfold same_result in Hx.
+  destruct (aexec body (aenv0 (repeat false 4), [])) as [[e2 a2]|]; [|discriminate].
+  match goal with |- context [aexec body ?s] => destruct (aexec body s) as [[e1 a1]|] end; [reflexivity|contradiction].
 Qed.
 
 (* est.fit_transform(tensor) for ANY decomposition body accepted by `safe`: of the caller's heap only the receiver
